@@ -2203,6 +2203,15 @@ extern int32 dtlsEncryptFragRecord(ssl_t *ssl, flightEncode_t *msg,
  */
 extern psRes_t chooseCipherSuite(ssl_t *ssl, unsigned char *listStart,
         int32 listLen);
+#  if defined(USE_SERVER_SIDE_SSL) && defined(USE_STATELESS_SESSION_TICKETS)
+extern void matrixSslLockSessionTicketKeys(void);
+extern void matrixSslUnlockSessionTicketKeys(void);
+extern psBool_t matrixSslHaveSessionTicketKeys(const sslKeys_t *keys);
+#  else
+#   define matrixSslLockSessionTicketKeys() do { } while (0)
+#   define matrixSslUnlockSessionTicketKeys() do { } while (0)
+#   define matrixSslHaveSessionTicketKeys(K) ((K) != NULL && (K)->sessTickets != NULL)
+#  endif
 extern const sslCipherSpec_t *sslGetDefinedCipherSpec(uint16_t id);
 extern const sslCipherSpec_t *sslGetCipherSpec(const ssl_t *ssl, uint16_t id);
 extern int32_t sslSetClientOfferedSuites(ssl_t *ssl,
